@@ -25,7 +25,18 @@ var intEdges = map[int][]uint64{
 	64: {0, 1, 0x7fffffffffffffff, 0x8000000000000000, 0xffffffffffffffff},
 }
 
+// asciiWords: what the first octets of a big-endian integer spell when they happen to be text.
+var asciiWords = []string{"id:12345", "ID:12345", "Id:00000", "stat:DEL", "sub:001 ", "text:abc", "\x05\x00\x03\x01\x02\x01ab", "\x06\x08\x04\x00\x01\x02\x01a"}
+
 func GenInt(c *core.Chooser, bits int) uint64 {
+	if bits >= 32 && c.Prob(1, 24) {
+		w := asciiWords[c.Intn(len(asciiWords))]
+		var x uint64
+		for i := 0; i < bits/8; i++ {
+			x = x<<8 | uint64(w[i])
+		}
+		return x
+	}
 	switch c.Pick(3, 4, 3) {
 	case 0:
 		return uint64(c.Intn(4))
@@ -56,7 +67,17 @@ func genText(c *core.Chooser, max int, o GenOpt) []byte {
 	b := c.Blob(n, alpha)
 	// edge shapes chance would not produce: blanks at the ends, nothing but blanks, digits only
 	if n > 0 && o.Shape == 0 {
-		switch c.Pick(40, 1, 1, 1, 1, 2) {
+		switch c.Pick(40, 1, 1, 1, 1, 2, 2) {
+		case 6:
+			// a phone number the way people write it
+			w := "+" + string(c.Blob(n, "digits"))
+			if c.Bool() {
+				w = "00" + w[1:]
+			}
+			if len(w) > max {
+				w = w[:max]
+			}
+			b = []byte(w)
 		case 5:
 			// words the protocols give a meaning to, in some letter case: a decoder may "normalise" them
 			w := StateWords[c.Intn(len(StateWords))]
@@ -159,7 +180,14 @@ func Gen(c *core.Chooser, p *PDU, o GenOpt) *Msg {
 		case KStr:
 			v.B = genText(c, f.Width, o)
 		case KBin:
-			if o.BinNoNul {
+			if c.Prob(1, 10) {
+				// a binary field whose octets all come from one printable class: it looks like text, like hex
+				v.B = c.Blob(f.Width, "any")
+				cls := []string{"0123456789", "0123456789abcdef", "0123456789ABCDEF", "abcdefghijklmnopqrstuvwxyz", "id:ID:stat"}[c.Intn(5)]
+				for i := range v.B {
+					v.B[i] = cls[int(v.B[i])%len(cls)]
+				}
+			} else if o.BinNoNul {
 				v.B = c.Blob(f.Width, "nonul")
 			} else {
 				v.B = c.Blob(f.Width, "any")
